@@ -129,7 +129,8 @@ func Hist(t *rapid.T, o HistOpts) *History {
 		switch kind {
 		case "update":
 			spec.NextUpd = newKey()
-			if o.Cycles && rapid.IntRange(0, 5).Draw(t, "cycle") == 0 {
+			// (an unauthorised operation names an already consumed or the current commitment as its next one every third time)
+			if (o.Cycles && rapid.IntRange(0, 5).Draw(t, "cycle") == 0) || (forged && rapid.IntRange(0, 2).Draw(t, "forgedCycle") == 0) {
 				anc := append(append([]*keys.Key{}, st.updAnc...), st.upd)
 				spec.Opt.NextUpdate = asm.Commit(rapid.SampledFrom(anc).Draw(t, "cycleTarget"), code)
 				cyc = true
@@ -137,7 +138,7 @@ func Hist(t *rapid.T, o HistOpts) *History {
 		case "recover":
 			spec.NextUpd, spec.NextRec = newKey(), newKey()
 			spec.Opt.AnchorOrigin = rapid.SampledFrom([]interface{}{nil, "origin-r"}).Draw(t, "recoverOrigin")
-			if o.Cycles && rapid.IntRange(0, 5).Draw(t, "cycle") == 0 {
+			if (o.Cycles && rapid.IntRange(0, 5).Draw(t, "cycle") == 0) || (forged && rapid.IntRange(0, 2).Draw(t, "forgedCycle") == 0) {
 				anc := append(append([]*keys.Key{}, st.recAnc...), st.rec)
 				spec.Opt.NextRecovery = asm.Commit(rapid.SampledFrom(anc).Draw(t, "cycleTarget"), code)
 				cyc = true
